@@ -13,7 +13,7 @@ CHECKS = {
             "text": _VX + "encoder ops ensure forall z. meaning'(z) == meaning(input ++ z) (so any segmentation / input method gives "
                     "enc(concatenation)); decoder ops refine the byte automaton drun; lemma drun(enc(x)) == (accept, x) for all x. "
                     "Unbounded: all lengths, all segmentations.",
-            "note": "OwningIovec producer/consumer interface, find_stuff_sequence (bounded: Kani on all slices <= 72 bytes + native enumeration up to 200 bytes), AnchoredSlice::components are assumed contracts; see evidence.assumptions"},
+            "note": "OwningIovec producer/consumer interface and AnchoredSlice::components are assumed contracts; find_stuff_sequence is proved in the unit (rule N16) with Kani (slices <= 72 bytes) and a native enumeration (<= 200 bytes) as second engines; see evidence.assumptions"},
     "C02": {"engine": "verus", "design_ref": "DESIGN.md 4, 5 (C02)",
             "technique": "Verus contracts: out == enc(X); lemmas no_stuff(enc x), |enc x| bound, split composition",
             "text": _VX + "finish() returns enc(concatenated input) by the meaning contract; pure lemmas prove no FE FD at any position of "
@@ -52,7 +52,7 @@ CHECKS.update({
                     "Sentinel <=> FE FD at the current position; Data = exactly the next bytes, non-empty, FE FD neither inside nor straddling "
                     "into the next chunk; Eof only when nothing is left; reported offsets are absolute end positions; terminates, no panic, no "
                     "offset overflow. Tiling of successive calls is a one-step lemma + induction.",
-            "note": "assumed: Chain + ByteArena::read_n deliver exactly min(count, available) bytes of carried ++ stream (no hard I/O errors), AnchoredSlice operations act on the exposed bytes, find_stuff_sequence (bounded Kani); found and fixed F1 (block size 0/1)"},
+            "note": "assumed: Chain + ByteArena::read_n deliver exactly min(count, available) bytes of carried ++ stream (no hard I/O errors), AnchoredSlice operations act on the exposed bytes; find_stuff_sequence is proved in the unit (rule N16); found and fixed F1 (block size 0/1)"},
     "C11": {"engine": "kani+native", "design_ref": "DESIGN.md 5 (C11), 10.1",
             "technique": "Kani bounded Hoare-triple harnesses against the Roughtime layout; full-usize-domain harness for the i32::MAX rule; native bounded cross-check of the same triple on long lists",
             "text": _KB + "Layout, emitted == rough_tlv_len, MessageView round trip, stable tie order, new_from_sorted's rejection set, "
@@ -74,12 +74,12 @@ CHECKS.update({
                     "Kani checks SmallVec's/Vec's impl of the contract and re-checks each operation on the real containers (bounded).",
             "note": "assumed: <[T]>::copy_within is memmove; SmallVec meets the container contract (bounded: Kani on <= 3 elements, plus Engine C running the deque on real SmallVec backings through inline->heap transitions, up to 40 / 120 elements); Deref trait methods are contract stubs whose bodies are verified re-homed (N12)"},
     "C16": {"engine": "verus+kani+native", "design_ref": "DESIGN.md 5 (C16), 10.3, 10.4 (F6), 10.12",
-            "technique": "Verus contracts on the real generic SortedDeque against the reference ordered map `live` (unbounded, against trait contracts of comparator/marker and the SlidingDeque contracts); Kani bounded inductive-per-operation harnesses, both item conventions, incl. the assumed cleanup_front contract; native bounded cross-check of whole operation sequences on more keys",
+            "technique": "Verus contracts on the real generic SortedDeque against the reference ordered map `live` (unbounded, against trait contracts of comparator/marker and the SlidingDeque contracts); Kani bounded inductive-per-operation harnesses, both item conventions, incl. a second discharge of the cleanup_front contract (proved in Verus via rule N15); native bounded cross-check of whole operation sequences on more keys",
             "text": "Verus proves new, push_back_or_panic, clear, is_empty, first, last, pop_first, pop_last, find, find_index, remove, cleanup_back, "
                     "check_rep for every size against the reference ordered map (the non-erased physical items in order) and the invariant wf, generic "
-                    "in container and comparator; cleanup_front, the comparator's order laws / method contracts, binary_search_by are assumed there. "
+                    "in container and comparator, cleanup_front included (rule N15); the comparator's order laws / method contracts and binary_search_by are assumed there. "
                     + _KB + "Every operation from EVERY rep-valid state within the bound (sorted keys, first/last live, inner deque invariant) against "
-                    "the list of live items; 'push of a non-greater key always panics' via an unreachable-marker harness; the assumed cleanup_front contract "
+                    "the list of live items; 'push of a non-greater key always panics' via an unreachable-marker harness; the cleanup_front contract (also proved in Verus) "
                     "on <= 7 / 10 items. One OPEN known finding (F6, whole-item ordering with tied key fields) is confined to its own harness.",
             "note": "BOUNDED: <= 4 physical items quick / 5 thorough; induction over operations is a meta-argument; defects needing >= 5 physical items are beyond the quick Kani bound and are reached by the thorough tier (5) and by Engine C, the native bounded cross-check (every subset of removals over <= 10 / 13 keys, all observations after every step; bounded, not proof)"},
     "C17": {"engine": "verus+kani+native", "design_ref": "DESIGN.md 5 (C17), 10.1",
